@@ -471,7 +471,7 @@ def _cos(draw, tier):
             "arr": draw(st.booleans()), "two_d": draw(st.booleans()), "seed": draw(_SEED), **draw(_DIMS),
             # dtype of the samples: "" = float64 / int64 as generated; f4, i4, u2 only take effect on integer bounds (u2: b0 >= 0)
             "xdt": draw(st.sampled_from(["", "", "f4", "i4", "u2", "u2"])), "bk": draw(st.sampled_from(["", "", "tuple", "arr_ro"])),
-            "form": draw(st.integers(0, 1))}
+            "form": draw(st.integers(0, 2))}
 
 
 def strategy(tier):
@@ -1053,30 +1053,50 @@ def _check_filters(case, ctx, F, x, xin, n, si, si_arg, pos, ndim, axarg, akw):
 
 # ---- fast size ------------------------------------------------------------------------------------
 
+def _optim_arg(a, kind):
+    """the argument in one of the scalar types callers hold, and the integer the answer must not be below"""
+    if kind == "float":
+        return float(a), a
+    if kind == "npf":
+        return np.float64(a), a
+    if kind == "below":
+        return a - 0.5, a       # integers not below a - 0.5 are those not below a
+    if kind == "above":
+        return a + 0.5, a + 1
+    return _int_kind(a, kind), a
+
+
 def _run_optim(case, ctx):
     F = sut.fourier()
     args = list(case["args"]) + list(range(case["lo"], case["hi"] + 1))
-    ctx.label("optim_range" if case["hi"] >= case["lo"] else "optim_list")
+    ak = case.get("ak", "int")
+    kinds = OPTIM_KINDS if ak == "all" else ["int"] + ([ak] if ak != "int" else [])
+    ctx.label("optim_range" if case["hi"] >= case["lo"] else "optim_list", "optim_arg_" + ak)
     for a in args:
-        exp = next_smooth(a)
         if a <= 5000:
             # the table itself against the definition
             m = a
             while not _is_23(m):
                 m += 1
-            if m != exp:
-                raise AssertionError(f"oracle table wrong at {a}: {exp} vs {m}")
-        if exp % 2 == 1 and exp > 1:
-            ctx.nontrivial = True
-            ctx.label("optim_answer_pow3")
-        if a == exp:
-            ctx.label("optim_arg_is_smooth")
-        kind = "C18.ns_optim_3pow15" if exp == P3_15 else "C18.ns_optim"
-        got = ctx.call(kind, F.ns_optim_fft, a)
-        if got is ctx.CRASH:
-            continue
-        ok = np.ndim(got) == 0 and float(got) == float(exp)
-        ctx.check(ok, kind, lambda: f"ns_optim_fft({a}) = {got!r}, smallest 2^a 3^b not below it is {exp}")
+            if m != next_smooth(a):
+                raise AssertionError(f"oracle table wrong at {a}: {next_smooth(a)} vs {m}")
+        for kind_of_arg in kinds:
+            arg, lower = _optim_arg(a, kind_of_arg)
+            exp = next_smooth(lower)
+            if exp % 2 == 1 and exp > 1:
+                ctx.nontrivial = True
+                ctx.label("optim_answer_pow3")
+            if a == exp:
+                ctx.label("optim_arg_is_smooth")
+            kind = "C18.ns_optim_3pow15" if exp == P3_15 else "C18.ns_optim"
+            got = ctx.call(kind, F.ns_optim_fft, arg)
+            if got is ctx.CRASH:
+                continue
+            try:
+                ok = np.ndim(got) == 0 and float(got) == float(exp)
+            except Exception:  # noqa - not a number
+                ok = False
+            ctx.check(ok, kind, lambda: f"ns_optim_fft({arg!r}) = {got!r}, smallest 2^a 3^b not below it is {exp}")
 
 
 # ---- 2-D DFT --------------------------------------------------------------------------------------
@@ -1084,10 +1104,14 @@ def _run_optim(case, ctx):
 def _run_dft2(case, ctx):
     F = sut.fourier()
     nk, nl, nt = case["nk"], case["nl"], case["nt"]
+    lay, rc, ro = case.get("lay", "C"), case.get("rc", "C"), bool(case.get("ro", False))
+    dt, nkk, rep = case.get("dt", "f8"), case.get("nkk", "int"), case.get("rep", 0)
     rng = np.random.default_rng(case["seed"])
     img = rng.standard_normal((nk, nl, nt))
     if case["cplx"]:
         img = img + 1j * rng.standard_normal((nk, nl, nt))
+    if dt == "f4":
+        img = img.astype(np.complex64 if case["cplx"] else np.float32)
     mask = rng.random(nk * nl) < case["keep"] / 1000.0
     if not mask.any():
         mask[int(rng.integers(0, nk * nl))] = True
@@ -1096,33 +1120,51 @@ def _run_dft2(case, ctx):
         pts = rng.permutation(pts)
     i, j = pts // nl, pts % nl
     r, c = i / nk, j / nl
-    x = img.reshape(nk * nl, nt)[pts]
-    ref = np.fft.fft2(img * mask.reshape(nk, nl, 1), axes=(0, 1))
+    x0 = img.reshape(nk * nl, nt)[pts]
+    if case["vector"]:
+        x0 = np.ascontiguousarray(x0[:, 0])
+    x = x0.astype(np.complex128 if case["cplx"] else np.float64)
+    img64 = img.astype(np.complex128 if case["cplx"] else np.float64)
+    ref = np.fft.fft2(img64 * mask.reshape(nk, nl, 1), axes=(0, 1))
+    # what the code under test sees
+    xin, rin, cin = _lay(x0, lay, ro), _lay(r, rc, ro), _lay(c, rc, ro)
+    nk_arg, nl_arg = _int_kind(nk, nkk), _int_kind(nl, nkk)
     ctx.label("dft2_full_grid" if mask.all() else "dft2_subset", "dft2_perm" if case["perm"] else "dft2_ordered",
-              "dft2_complex" if case["cplx"] else "dft2_real")
+              "dft2_complex" if case["cplx"] else "dft2_real", "dft2_lay_" + lay, "dft2_rc_" + rc, "dft2_" + dt,
+              "dft2_n_" + nkk, f"dft2_rep{rep}")
+    if ro:
+        ctx.label("dft2_readonly")
     if _is_prime(nk) or _is_prime(nl):
         ctx.nontrivial = True
         ctx.label("dft2_prime")
     s = np.maximum(np.sum(np.abs(x), axis=0), 1e-300)
     tol = DFT_TOL_EPS * EPS["f8"] * (nk + nl)
+    kind = "C18.dft2_vector" if case["vector"] else "C18.dft2"
     if case["vector"]:
         ctx.label("dft2_vector")
-        got = ctx.call("C18.dft2_vector", F.dft2, x[:, 0], r, c, nk, nl)
+    for it in range(2 if rep else 1):
+        which = "first call" if it == 0 else "second call with the same argument objects"
+        if it == 1 and rep == 2:
+            # another data set on the same positions went through in between
+            ctx.call(kind, F.dft2, _lay((x + 1.0).astype(x0.dtype), lay, ro), rin, cin, nk_arg, nl_arg)
+        got = ctx.call(kind, F.dft2, xin, rin, cin, nk_arg, nl_arg)
         if got is ctx.CRASH:
-            return
-        ok = np.shape(got) in ((nk, nl), (nk, nl, 1))
-        if ctx.check(ok, "C18.dft2_vector", lambda: f"dft2 of a vector: shape {np.shape(got)}, expected ({nk},{nl}[,1])"):
-            err = float(np.max(np.abs(np.reshape(got, (nk, nl)) - ref[:, :, 0]))) / float(s[0])
-            ctx.check(err <= tol, "C18.dft2_vector", lambda: f"dft2 of a vector differs from fft2 by {err:.3g} x sum|x|")
-        return
-    got = ctx.call("C18.dft2", F.dft2, x, r, c, nk, nl)
-    if got is ctx.CRASH:
-        return
-    if ctx.check(np.shape(got) == (nk, nl, nt), "C18.dft2", lambda: f"dft2 shape {np.shape(got)}, expected {(nk, nl, nt)}"):
-        err = float(np.max(np.abs(got - ref) / s))
-        ctx.stat("dft2_err_in_eps", err / (nk + nl) / EPS["f8"])
-        ctx.check(err <= tol, "C18.dft2", lambda: f"dft2 on a {nk}x{nl} grid ({pts.size} points) differs from fft2 of the "
-                                                  f"zero-filled image by {err:.3g} x sum|x|")
+            break
+        if case["vector"]:
+            ok = np.shape(got) in ((nk, nl), (nk, nl, 1))
+            if ctx.check(ok, kind, lambda: f"dft2 of a vector: shape {np.shape(got)}, expected ({nk},{nl}[,1])"):
+                err = float(np.max(np.abs(np.reshape(got, (nk, nl)) - ref[:, :, 0]))) / float(s)
+                ctx.check(err <= tol, kind, lambda: f"dft2 of a vector differs from fft2 by {err:.3g} x sum|x| ({which})")
+        elif ctx.check(np.shape(got) == (nk, nl, nt), kind, lambda: f"dft2 shape {np.shape(got)}, expected {(nk, nl, nt)}"):
+            err = float(np.max(np.abs(got - ref) / s))
+            ctx.stat("dft2_err_in_eps", err / (nk + nl) / EPS["f8"])
+            ctx.check(err <= tol, kind, lambda: f"dft2 on a {nk}x{nl} grid ({pts.size} points, data {x0.dtype} layout {lay}, "
+                                                f"positions layout {rc}) differs from fft2 of the zero-filled image by "
+                                                f"{err:.3g} x sum|x| ({which})")
+        if rep == 2:
+            _scribble(got)
+    ctx.check(_same(xin, x0) and _same(rin, r) and _same(cin, c), "C18.dft2_input_mutated",
+              lambda: f"dft2 modified its {'data' if not _same(xin, x0) else 'position'} argument")
 
 
 # ---- cosine soft threshold ---------------------------------------------------------------------------
@@ -1130,11 +1172,23 @@ def _run_dft2(case, ctx):
 def _run_cos(case, ctx):
     U = sut.utils()
     b0, b1, npts = case["b0"], case["b1"], case["npts"]
+    lay, ro, rep = case.get("lay", "C"), bool(case.get("ro", False)), case.get("rep", 0)
+    xdt, bk, form = case.get("xdt", ""), case.get("bk", ""), case.get("form", 0)
     rng = np.random.default_rng(case["seed"])
     d = b1 - b0
+    edt = "f8"
     if case["int"]:
         xs = rng.integers(b0 - d - 2, b1 + d + 3, size=npts)
         xs[: min(npts, 3)] = [b0, b1, b0 + d // 2][: min(npts, 3)]
+        # integer bounds and samples are exact in every dtype: int32, float32, and uint16 when the lower bound is not negative
+        # (numpy refuses uint16 - negative Python integer; samples below the bound wrap around in x - b0 and must still give 0)
+        if xdt == "u2" and b0 >= 0:
+            xs = np.clip(xs, 0, 65535).astype(np.uint16)
+        elif xdt in ("i4", "u2"):
+            xs = xs.astype(np.int32)
+        elif xdt == "f4":
+            xs = xs.astype(np.float32)
+            edt = "f4"
     else:
         xs = np.concatenate([rng.uniform(b0 - d, b1 + d, npts), rng.uniform(b0, b1, npts),
                              b0 + d * rng.uniform(-1e-9, 1e-9, 4), b1 + d * rng.uniform(-1e-9, 1e-9, 4),
@@ -1144,23 +1198,75 @@ def _run_cos(case, ctx):
     if case["two_d"] and xs.size % 2 == 0:
         xs = xs.reshape(2, -1)
         ctx.label("cos_2d")
-    bounds = np.array([b0, b1]) if case["arr"] else [b0, b1]
-    ctx.label("cos_int" if case["int"] else "cos_float", "cos_bounds_array" if case["arr"] else "cos_bounds_list")
-    y = ctx.call("C18.cosine", lambda: U.fcn_cosine(bounds)(xs))
-    if y is ctx.CRASH:
-        return
-    if not ctx.check(np.shape(y) == xs.shape, "C18.cosine", lambda: f"output shape {np.shape(y)} != input {xs.shape}"):
-        return
-    yf, xf = np.asarray(y, dtype=float).ravel(), xs.ravel()
+    xin = _lay(xs, lay, ro)  # xs stays behind as the copy the oracle works from
+    if bk:
+        bounds = _box([b0, b1], bk)
+    else:
+        bounds = np.array([b0, b1]) if case["arr"] else [b0, b1]
+    ctx.label("cos_int" if case["int"] else "cos_float", "cos_bounds_" + type(bounds).__name__, "cos_x_" + xs.dtype.name,
+              "cos_lay_" + lay, f"cos_rep{rep}", f"cos_form{form}")
+    if ro:
+        ctx.label("cos_readonly")
+    xf = xs.astype(np.float64).ravel()
     below, above = xf <= b0, xf >= b1
-    ctx.check(np.all(np.abs(yf[below]) <= 1e-15), "C18.cosine", lambda: f"not 0 at or below the lower bound {b0}")
-    ctx.check(np.all(np.abs(yf[above] - 1) <= 1e-15), "C18.cosine", lambda: f"not 1 at or above the upper bound {b1}")
-    ctx.check(np.all((yf >= 0) & (yf <= 1)), "C18.cosine", "values outside [0, 1]")
-    if yf.size > 1:
-        dmin = float(np.min(np.diff(yf)))
-        ctx.stat("min_cos_diff", dmin)
-        ctx.check(dmin >= -COS_MONO_TOL, "C18.cosine", lambda: f"not non-decreasing on sorted samples (step {dmin:.3g}), "
-                                                              f"bounds {b0}, {b1}")
-    err = float(np.max(np.abs(yf - _taper(xf, b0, b1))))
-    ctx.stat("cosine_err", err)
-    ctx.check(err <= COS_TOL, "C18.cosine", lambda: f"differs from (1 - cos(pi (x-b0)/(b1-b0)))/2 by {err:.3g}")
+    exp = _taper(xf, b0, b1)
+    tol = COS_TOL if edt == "f8" else 64 * EPS["f4"]
+    mono = COS_MONO_TOL if edt == "f8" else 4 * EPS["f4"]
+
+    def check(y, which):
+        try:
+            ya = np.asarray(y)
+            ok = ya.shape == xs.shape and ya.dtype.kind == "f"
+        except Exception:  # noqa
+            ok = False
+        if not ctx.check(ok, "C18.cosine", lambda: f"output {type(y).__name__} shape {np.shape(y)} dtype "
+                                                   f"{getattr(y, 'dtype', None)} for input {xs.shape} {xs.dtype} ({which})"):
+            return
+        yf = ya.astype(np.float64).ravel()
+        if not ctx.check(bool(np.all(np.isfinite(yf))), "C18.cosine", lambda: f"non-finite values ({which})"):
+            return
+        ctx.check(np.all(np.abs(yf[below]) <= 1e-15), "C18.cosine", lambda: f"not 0 at or below the lower bound {b0} "
+                                                                            f"(samples {xs.dtype}, {which})")
+        ctx.check(np.all(np.abs(yf[above] - 1) <= 1e-15), "C18.cosine", lambda: f"not 1 at or above the upper bound {b1} "
+                                                                                f"(samples {xs.dtype}, layout {lay}, {which})")
+        ctx.check(np.all((yf >= 0) & (yf <= 1)), "C18.cosine", "values outside [0, 1]")
+        if yf.size > 1:
+            dmin = float(np.min(np.diff(yf)))
+            if edt == "f8":
+                ctx.stat("min_cos_diff", dmin)
+            ctx.check(dmin >= -mono, "C18.cosine", lambda: f"not non-decreasing on sorted samples (step {dmin:.3g}), "
+                                                          f"bounds {b0}, {b1} ({which})")
+        err = float(np.max(np.abs(yf - exp)))
+        ctx.stat("cosine_err" if edt == "f8" else "cosine_err_f4", err)
+        ctx.check(err <= tol, "C18.cosine", lambda: f"differs from (1 - cos(pi (x-b0)/(b1-b0)))/2 by {err:.3g} (samples "
+                                                    f"{xs.dtype}, layout {lay}, {which})")
+
+    def make():
+        if form == 1:
+            return U.fcn_cosine(bounds, gpu=False)
+        if form == 2:
+            return U.fcn_cosine(bounds=bounds)
+        return U.fcn_cosine(bounds)
+
+    fcn = ctx.call("C18.cosine", make)
+    if fcn is ctx.CRASH:
+        return
+    y = ctx.call("C18.cosine", fcn, xin)
+    if y is not ctx.CRASH:
+        check(y, "first call")
+        if isinstance(y, np.ndarray):
+            # voltage.fk multiplies the taper it gets in place
+            ctx.check(y.flags.writeable, "C18.cosine_result_readonly", "the taper is returned read-only (fk multiplies it in place)")
+    if rep:
+        _scribble(y if y is not ctx.CRASH else None)
+        if rep == 2:
+            ctx.call("C18.cosine", fcn, _lay((xs[..., ::-1] + 1).astype(xs.dtype), lay, ro))
+        y2 = ctx.call("C18.cosine", fcn, xin)
+        if y2 is not ctx.CRASH:
+            check(y2, "same function, same samples object, second call")
+        if rep == 2:
+            y3 = ctx.call("C18.cosine", lambda: make()(xin))
+            if y3 is not ctx.CRASH:
+                check(y3, "second function built from the same bounds object")
+    ctx.check(_same(xin, xs) and _same(bounds, [b0, b1]), "C18.cosine_input_mutated",
+              lambda: f"fcn_cosine modified its {'samples' if not _same(xin, xs) else 'bounds'} ({xs.dtype}, layout {lay})")
